@@ -216,6 +216,23 @@ def inline_helpers(tree, ref_mod: dict) -> int:
             if done_here and not left:
                 body.remove(h)
             n_done += done_here
+    # local closures introduced inside a known function
+    for q, fn in functions_of(tree):
+        if q not in known:
+            continue
+        for h in [x for x in fn.body if isinstance(x, ast.FunctionDef) and (q + ".<locals>." + x.name) not in known]:
+            shp = _helper_shape(h)
+            if shp is None or any(isinstance(c, ast.Call) and isinstance(c.func, ast.Name) and c.func.id == h.name for c in ast.walk(h)):
+                continue
+            # the closure must not be used as a value (passed around), only called
+            uses = [n for n in ast.walk(fn) if isinstance(n, ast.Name) and n.id == h.name and isinstance(n.ctx, ast.Load)]
+            calls = [c for c in ast.walk(fn) if isinstance(c, ast.Call) and isinstance(c.func, ast.Name) and c.func.id == h.name]
+            if len(uses) != len(calls):
+                continue
+            d, l = _inline_in(fn, h, shp, None, False, None)
+            if d and not l:
+                fn.body.remove(h)
+            n_done += d
     return n_done
 
 
